@@ -1,8 +1,243 @@
 // ---- spec/noise.rs : Noise_X_25519_ChaChaPoly_SHA256 (Noise rev 34) as spec functions ----
+// Written from the Noise specification sections 4.3 (HKDF), 5.1-5.3 (CipherState, SymmetricState,
+// HandshakeState) and 7.2 (pattern X), not from the code.
+
 /// HKDF(chaining_key, input_key_material, 2) of Noise section 4.3
 pub open spec fn noise_hkdf2(ck: Seq<u8>, ikm: Seq<u8>) -> (Seq<u8>, Seq<u8>) {
     let temp_key = spec_hmac(ck, ikm);
     let out1 = spec_hmac(temp_key, seq![0x01u8]);
     let out2 = spec_hmac(temp_key, out1 + seq![0x02u8]);
     (out1, out2)
+}
+
+/// "Noise_X_25519_ChaChaPoly_SHA256" in ASCII (31 bytes)
+pub open spec fn noise_x_name() -> Seq<u8> {
+    seq![0x4eu8, 0x6fu8, 0x69u8, 0x73u8, 0x65u8, 0x5fu8, 0x58u8, 0x5fu8, 0x32u8, 0x35u8, 0x35u8, 0x31u8, 0x39u8, 0x5fu8,
+         0x43u8, 0x68u8, 0x61u8, 0x43u8, 0x68u8, 0x61u8, 0x50u8, 0x6fu8, 0x6cu8, 0x79u8, 0x5fu8,
+         0x53u8, 0x48u8, 0x41u8, 0x32u8, 0x35u8, 0x36u8]
+}
+
+/// SymmetricState of Noise 5.2 (ck, h) together with its CipherState (k, n)
+pub struct SymView {
+    pub ck: Seq<u8>,
+    pub h: Seq<u8>,
+    pub k: Option<Seq<u8>>,
+    pub n: u64,
+}
+
+/// InitializeSymmetric(protocol_name)
+pub open spec fn sym_init(name: Seq<u8>) -> SymView {
+    let h = if name.len() <= 32 { name + zeros((32 - name.len()) as nat) } else { spec_sha256(name) };
+    SymView { ck: h, h: h, k: None, n: 0 }
+}
+/// MixHash(data)
+pub open spec fn sym_mix_hash(s: SymView, data: Seq<u8>) -> SymView {
+    SymView { h: spec_sha256(s.h + data), ..s }
+}
+/// MixKey(input_key_material)
+pub open spec fn sym_mix_key(s: SymView, ikm: Seq<u8>) -> SymView {
+    let (ck, temp_k) = noise_hkdf2(s.ck, ikm);
+    SymView { ck: ck, h: s.h, k: Some(temp_k), n: 0 }
+}
+/// EncryptAndHash(plaintext) with a key present
+pub open spec fn sym_enc(s: SymView, pt: Seq<u8>) -> (Seq<u8>, SymView) {
+    let c = seal_noise(s.k.unwrap(), s.n, s.h, pt);
+    (c, sym_mix_hash(SymView { n: (s.n + 1) as u64, ..s }, c))
+}
+/// DecryptAndHash(ciphertext) with a key present
+pub open spec fn sym_dec(s: SymView, ct: Seq<u8>) -> Option<(Seq<u8>, SymView)> {
+    match open_noise(s.k.unwrap(), s.n, s.h, ct) {
+        None => None,
+        Some(p) => Some((p, sym_mix_hash(SymView { n: (s.n + 1) as u64, ..s }, ct))),
+    }
+}
+
+// `Tok` is the token alphabet E, S, EE, ES, SE, SS: the including unit binds it (to the real noise::Token
+// enum in the crypto unit, to a local copy in the lemma unit).
+
+/// pattern X, initiator's single message:  -> e, es, s, ss
+pub open spec fn x_pattern() -> Seq<Tok> { seq![Tok::E, Tok::ES, Tok::S, Tok::SS] }
+
+/// Initialize(X, initiator, prologue, s, e, rs): h/ck from the protocol name, MixHash(prologue),
+/// pre-message `<- s`: MixHash(responder's static public key)
+pub open spec fn x_init_sym(prologue: Seq<u8>, responder_static_pub: Seq<u8>) -> SymView {
+    sym_mix_hash(sym_mix_hash(sym_init(noise_x_name()), prologue), responder_static_pub)
+}
+
+/// WriteMessage for pattern X, straight from the token definitions of Noise 5.3.
+/// s, e = (private, public); rs = responder's static public key.
+/// None = a DH produced the all-zero output (refused).
+pub open spec fn x_write(sym0: SymView, s: (Seq<u8>, Seq<u8>), e: (Seq<u8>, Seq<u8>), rs: Seq<u8>, payload: Seq<u8>)
+    -> Option<(Seq<u8>, SymView)>
+{
+    // e
+    let st1 = sym_mix_hash(sym0, e.1);
+    // es
+    match spec_x25519(e.0, rs) {
+        None => None,
+        Some(dh1) => {
+            let st2 = sym_mix_key(st1, dh1);
+            // s
+            let (c1, st3) = sym_enc(st2, s.1);
+            // ss
+            match spec_x25519(s.0, rs) {
+                None => None,
+                Some(dh2) => {
+                    let st4 = sym_mix_key(st3, dh2);
+                    let (c2, st5) = sym_enc(st4, payload);
+                    Some((e.1 + c1 + c2, st5))
+                },
+            }
+        },
+    }
+}
+
+pub struct XRead { pub payload: Seq<u8>, pub rs: Seq<u8>, pub re: Seq<u8>, pub sym: SymView }
+pub enum XReadErr { TooShort, Dh, Decrypt, KeySize }
+
+/// ReadMessage for pattern X by the responder with static key pair s (private, public).
+pub open spec fn x_read(sym0: SymView, s: (Seq<u8>, Seq<u8>), msg: Seq<u8>) -> Result<XRead, XReadErr> {
+    if msg.len() < 96 || msg.len() > 65535 { Err(XReadErr::TooShort) } else {
+        // e
+        let re = msg.subrange(0, 32);
+        let st1 = sym_mix_hash(sym0, re);
+        // es
+        match spec_x25519(s.0, re) {
+            None => Err(XReadErr::Dh),
+            Some(dh1) => {
+                let st2 = sym_mix_key(st1, dh1);
+                // s
+                match sym_dec(st2, msg.subrange(32, 80)) {
+                    None => Err(XReadErr::Decrypt),
+                    Some((rs, st3)) => {
+                        // ss
+                        match spec_x25519(s.0, rs) {
+                            None => Err(XReadErr::Dh),
+                            Some(dh2) => {
+                                let st4 = sym_mix_key(st3, dh2);
+                                match sym_dec(st4, msg.subrange(80, msg.len() as int)) {
+                                    None => Err(XReadErr::Decrypt),
+                                    Some((p, st5)) => Ok(XRead { payload: p, rs: rs, re: re, sym: st5 }),
+                                }
+                            },
+                        }
+                    },
+                }
+            },
+        }
+    }
+}
+
+// ---- the generic token fold the real code implements (loop invariants talk about this);
+// ---- lemma_fold_is_x_write / lemma_fold_is_x_read tie it to the straight-line definitions above.
+pub open spec fn w_step(st: SymView, buf: Seq<u8>, s: (Seq<u8>, Seq<u8>), e: (Seq<u8>, Seq<u8>), rs: Seq<u8>, t: Tok)
+    -> Option<(SymView, Seq<u8>)>
+{
+    match t {
+        Tok::E => Some((sym_mix_hash(st, e.1), buf + e.1)),
+        Tok::S => { let (c, st2) = sym_enc(st, s.1); Some((st2, buf + c)) },
+        Tok::ES => match spec_x25519(e.0, rs) { None => None, Some(d) => Some((sym_mix_key(st, d), buf)) },
+        Tok::SS => match spec_x25519(s.0, rs) { None => None, Some(d) => Some((sym_mix_key(st, d), buf)) },
+        _ => None,
+    }
+}
+pub open spec fn w_fold(sym0: SymView, s: (Seq<u8>, Seq<u8>), e: (Seq<u8>, Seq<u8>), rs: Seq<u8>, pat: Seq<Tok>, n: int)
+    -> Option<(SymView, Seq<u8>)>
+    decreases n
+{
+    if n <= 0 { Some((sym0, Seq::<u8>::empty())) } else {
+        match w_fold(sym0, s, e, rs, pat, n - 1) {
+            None => None,
+            Some((st, buf)) => w_step(st, buf, s, e, rs, pat[n - 1]),
+        }
+    }
+}
+
+pub struct RSt { pub sym: SymView, pub idx: int, pub re: Option<Seq<u8>>, pub rs: Option<Seq<u8>> }
+pub open spec fn r_step(st: RSt, s: (Seq<u8>, Seq<u8>), msg: Seq<u8>, t: Tok) -> Result<RSt, XReadErr> {
+    match t {
+        Tok::E => {
+            let re = msg.subrange(st.idx, st.idx + 32);
+            Ok(RSt { sym: sym_mix_hash(st.sym, re), idx: st.idx + 32, re: Some(re), rs: st.rs })
+        },
+        Tok::S => match sym_dec(st.sym, msg.subrange(st.idx, st.idx + 48)) {
+            None => Err(XReadErr::Decrypt),
+            Some((p, sym2)) => Ok(RSt { sym: sym2, idx: st.idx + 48, re: st.re, rs: Some(p) }),
+        },
+        Tok::ES => match spec_x25519(s.0, st.re.unwrap()) {
+            None => Err(XReadErr::Dh),
+            Some(d) => Ok(RSt { sym: sym_mix_key(st.sym, d), ..st }),
+        },
+        Tok::SS => match spec_x25519(s.0, st.rs.unwrap()) {
+            None => Err(XReadErr::Dh),
+            Some(d) => Ok(RSt { sym: sym_mix_key(st.sym, d), ..st }),
+        },
+        _ => Err(XReadErr::KeySize),
+    }
+}
+pub open spec fn r_fold(sym0: SymView, s: (Seq<u8>, Seq<u8>), msg: Seq<u8>, pat: Seq<Tok>, n: int) -> Result<RSt, XReadErr>
+    decreases n
+{
+    if n <= 0 { Ok(RSt { sym: sym0, idx: 0, re: None, rs: None }) } else {
+        match r_fold(sym0, s, msg, pat, n - 1) {
+            Err(e) => Err(e),
+            Ok(st) => r_step(st, s, msg, pat[n - 1]),
+        }
+    }
+}
+
+pub proof fn lemma_fold_is_x_write(sym0: SymView, s: (Seq<u8>, Seq<u8>), e: (Seq<u8>, Seq<u8>), rs: Seq<u8>, payload: Seq<u8>)
+    ensures x_write(sym0, s, e, rs, payload) == (match w_fold(sym0, s, e, rs, x_pattern(), 4) {
+        None => None,
+        Some((st, buf)) => { let (c, st5) = sym_enc(st, payload); Some((buf + c, st5)) },
+    })
+{
+    reveal_with_fuel(w_fold, 5);
+    let p = x_pattern();
+    assert(p[0] == Tok::E && p[1] == Tok::ES && p[2] == Tok::S && p[3] == Tok::SS);
+    let st1 = sym_mix_hash(sym0, e.1);
+    assert(Seq::<u8>::empty() + e.1 =~= e.1);
+    match spec_x25519(e.0, rs) {
+        None => {},
+        Some(dh1) => {
+            let st2 = sym_mix_key(st1, dh1);
+            let (c1, st3) = sym_enc(st2, s.1);
+            match spec_x25519(s.0, rs) {
+                None => {},
+                Some(dh2) => {
+                    let st4 = sym_mix_key(st3, dh2);
+                    let (c2, st5) = sym_enc(st4, payload);
+                    assert((e.1 + c1) + c2 =~= e.1 + c1 + c2);
+                },
+            }
+        },
+    }
+}
+pub proof fn lemma_w_fold_none(sym0: SymView, s: (Seq<u8>, Seq<u8>), e: (Seq<u8>, Seq<u8>), rs: Seq<u8>, pat: Seq<Tok>, k: int, n: int)
+    requires 0 <= k <= n, w_fold(sym0, s, e, rs, pat, k) is None
+    ensures w_fold(sym0, s, e, rs, pat, n) is None
+    decreases n - k
+{
+    if k < n { lemma_w_fold_none(sym0, s, e, rs, pat, k, n - 1); }
+}
+pub proof fn lemma_r_fold_err(sym0: SymView, s: (Seq<u8>, Seq<u8>), msg: Seq<u8>, pat: Seq<Tok>, k: int, n: int)
+    requires 0 <= k <= n, r_fold(sym0, s, msg, pat, k) is Err
+    ensures r_fold(sym0, s, msg, pat, n) == r_fold(sym0, s, msg, pat, k)
+    decreases n - k
+{
+    if k < n { lemma_r_fold_err(sym0, s, msg, pat, k, n - 1); }
+}
+pub proof fn lemma_fold_is_x_read(sym0: SymView, s: (Seq<u8>, Seq<u8>), msg: Seq<u8>)
+    requires 96 <= msg.len() <= 65535
+    ensures x_read(sym0, s, msg) == (match r_fold(sym0, s, msg, x_pattern(), 4) {
+        Err(e) => Err(e),
+        Ok(st) => match sym_dec(st.sym, msg.subrange(st.idx, msg.len() as int)) {
+            None => Err(XReadErr::Decrypt),
+            Some((p, st5)) => Ok(XRead { payload: p, rs: st.rs.unwrap(), re: st.re.unwrap(), sym: st5 }),
+        },
+    })
+{
+    reveal_with_fuel(r_fold, 5);
+    let p = x_pattern();
+    assert(p[0] == Tok::E && p[1] == Tok::ES && p[2] == Tok::S && p[3] == Tok::SS);
 }
